@@ -58,13 +58,7 @@ def _window_block(tr, stmts):
     want = ['alpha = _dft_alpha(', 'data = lentil.fourier.dft2(', 'out.data.append(Field(']
     if len(rest) != 3 or not all(r.startswith(w) for r, w in zip(rest, want)):
         raise Refuse('propagate_dft: statements after prop_shift changed: ' + ' | '.join(r[:40] for r in rest))
-    call = ast.unparse(guard.body[len(inner) + 1])
-    for frag in ('f=field.data', 'alpha=alpha', 'shape=intersect_shape', 'shift=prop_shift + subpx_shift',
-                 'offset=field.offset', 'unitary=True'):
-        if frag not in call: raise Refuse(f'propagate_dft: dft2 call no longer has `{frag}`')
-    app = ast.unparse(guard.body[len(inner) + 2])
-    if 'offset=intersect_shift' not in app or 'data=data' not in app:
-        raise Refuse('propagate_dft: output Field no longer built from (data, intersect_shift)')
+    # the arguments of the dft2 call and of Field(...) are translated into Gen/PropagateMeta.lean (dftCall*, dftFieldOffset)
     ret_some = ast.parse('return (intersect_shape, intersect_shift, prop_shift)').body[0]
     ret_none = ast.parse('return ()').body[0]
     new_if = ast.If(test=guard.test, body=inner + [ret_some], orelse=[ret_none])
@@ -202,6 +196,31 @@ def generate_meta(repo):
     if set(fkw) != {'data', 'pixelscale', 'offset'}: raise Refuse('propagate_dft: Field(...) keywords changed')
     out.append(f'/-- translated from `propagate.py:propagate_dft` (line {app[0].lineno}): pixelscale attribute of each output Field -/\n'
                f'def dftFieldPixelscale {R} (pixelscale_0 pixelscale_1 oversample : R) : R × R :=\n  {_pair(_rx(fkw["pixelscale"], envd))}\n')
+    # ---- the dft2 call and the output Field of the field loop: every argument is translated, none matched as text
+    calls = [n for n in ast.walk(fd) if isinstance(n, ast.Call) and ast.unparse(n.func) == 'lentil.fourier.dft2']
+    if len(calls) != 1 or calls[0].args: raise Refuse('propagate_dft: expected exactly one keyword-only lentil.fourier.dft2(...) call')
+    dkw = {k.arg: k.value for k in calls[0].keywords}
+    if set(dkw) != {'f', 'alpha', 'shape', 'shift', 'offset', 'unitary'}: raise Refuse(f'propagate_dft: dft2 keywords changed: {sorted(dkw)}')
+    same = lambda node, src: ast.dump(node) == ast.dump(ast.parse(src, mode='eval').body)
+    if not same(dkw['f'], 'field.data'): raise Refuse('propagate_dft: dft2 is no longer applied to field.data: ' + ast.unparse(dkw['f']))
+    if not same(dkw['alpha'], 'alpha'): raise Refuse('propagate_dft: dft2 alpha argument changed: ' + ast.unparse(dkw['alpha']))
+    if not same(dkw['unitary'], 'True'): raise Refuse('propagate_dft: dft2 is no longer called with unitary=True')
+    holder = [n for n in ast.walk(fd) if isinstance(n, ast.Assign) and n.value is calls[0]]
+    if len(holder) != 1 or ast.unparse(holder[0].targets[0]) != 'data': raise Refuse('propagate_dft: the dft2 result is no longer bound to `data`')
+    ienv = {'intersect_shape': ['intersect_shape_0', 'intersect_shape_1'], 'intersect_shift': ['intersect_shift_0', 'intersect_shift_1'],
+            'field.offset': ['field_offset_0', 'field_offset_1']}
+    renv = {'prop_shift': ['prop_shift_0', 'prop_shift_1'], 'subpx_shift': ['subpx_shift_0', 'subpx_shift_1']}
+    ipar = '(intersect_shape_0 intersect_shape_1 intersect_shift_0 intersect_shift_1 field_offset_0 field_offset_1 : Int)'
+    out.append(f'/-- translated from `propagate.py:propagate_dft` (line {calls[0].lineno}): `shape=` of the dft2 call -/\n'
+               f'def dftCallShape {ipar} : Int × Int :=\n  {_pair(_rx(dkw["shape"], ienv))}\n')
+    out.append(f'/-- translated from `propagate.py:propagate_dft` (line {calls[0].lineno}): `offset=` of the dft2 call -/\n'
+               f'def dftCallOffset {ipar} : Int × Int :=\n  {_pair(_rx(dkw["offset"], ienv))}\n')
+    out.append(f'/-- translated from `propagate.py:propagate_dft` (line {calls[0].lineno}): `shift=` of the dft2 call (`prop_shift` is the integer\n'
+               f'recentring shift of `Gen.dftWindow`, cast to the scalars) -/\n'
+               f'def dftCallShift {{R : Type}} [Add R] [Sub R] [Mul R] (prop_shift_0 prop_shift_1 subpx_shift_0 subpx_shift_1 : R) : R × R :=\n  {_pair(_rx(dkw["shift"], renv))}\n')
+    if not same(fkw['data'], 'data'): raise Refuse('propagate_dft: output Field is no longer built from the dft2 result')
+    out.append(f'/-- translated from `propagate.py:propagate_dft` (line {app[0].lineno}): `offset=` of the output Field -/\n'
+               f'def dftFieldOffset {ipar} : Int × Int :=\n  {_pair(_rx(fkw["offset"], ienv))}\n')
     # ---- shape_out, prop_shape_out (integers)
     for nm, src, ln in (('dftShapeOut', 'shape', 'shape_out'), ('dftPropShapeOut', 'prop_shape', 'prop_shape_out')):
         v = _rx(_assign(fd, ln), {src: [f'{src}_0', f'{src}_1'], 'oversample': 'oversample'})
